@@ -2,5 +2,5 @@ import Klong.Model.C17
 open Klong
 
 def main (_args : List String) : IO UInt32 := do
-  Wire.loop (← IO.getStdin) (← IO.getStdout) C17.handle C17.init
+  Wire.loop (← IO.getStdin) (← IO.getStdout) C17.handle C17.dinit
   return 0
